@@ -91,6 +91,7 @@ impl Opts {
         if doc.format == Format::Bed {
             o.bed_n = if doc.name.starts_with("bed3") { 3 } else { 6 };
         }
+        o.raw = doc.raw;
         o
     }
     pub fn api(mut self, api: Api) -> Self {
